@@ -150,7 +150,7 @@ def with_prog(base, prog):
 def gen_hist(tier, rng):
     quick = tier == "quick"
     out = []
-    nbase = 40 if quick else 300
+    nbase = 40 if quick else 220
     for bi in range(nbase):
         base = number(g_base(rng, tpl=0.12))
         n = len(base["defs"])
@@ -211,7 +211,7 @@ def gen_hist(tier, rng):
             out.append(with_prog(base, [["tree", [0, 1]], ["tree", [1, 0]], ["convert", False, n + 1]]))
             out.append(with_prog(base, [["tree", [0, 1]], ["tree", [1, 0]], ["convert", False, n]]))
     # --- random histories
-    for _ in range(250 if quick else 4000):
+    for _ in range(250 if quick else 3000):
         base = number(g_base(rng, tpl=0.2))
         n = len(base["defs"])
         names = [d["name"] for d in base["defs"]]
